@@ -25,12 +25,21 @@ CNeg(x) == <<-x[1], -x[2]>>
 CConj(x) == <<x[1], -x[2]>>
 CAbs2(x) == x[1] * x[1] + x[2] * x[2]
 
-RECURSIVE CSumTo(_, _)
-CSumTo(f, n) == IF n = 0 THEN CZ ELSE CAdd(CSumTo(f, n - 1), f[n])
+\* balanced recursion: depth log2(n), so that vectors with thousands of entries do not overflow the JVM stack
+RECURSIVE CSumRange(_, _, _)
+CSumRange(f, lo, hi) ==
+    IF lo > hi THEN CZ
+    ELSE IF lo = hi THEN f[lo]
+    ELSE LET mid == (lo + hi) \div 2 IN CAdd(CSumRange(f, lo, mid), CSumRange(f, mid + 1, hi))
+CSumTo(f, n) == CSumRange(f, 1, n)
 CSum(s) == CSumTo(s, Len(s))
 
-RECURSIVE ISumTo(_, _)
-ISumTo(f, n) == IF n = 0 THEN 0 ELSE ISumTo(f, n - 1) + f[n]
+RECURSIVE ISumRange(_, _, _)
+ISumRange(f, lo, hi) ==
+    IF lo > hi THEN 0
+    ELSE IF lo = hi THEN f[lo]
+    ELSE LET mid == (lo + hi) \div 2 IN ISumRange(f, lo, mid) + ISumRange(f, mid + 1, hi)
+ISumTo(f, n) == ISumRange(f, 1, n)
 ISum(s) == ISumTo(s, Len(s))
 
 RECURSIVE Prod(_)
@@ -39,8 +48,11 @@ Prod(s) == IF s = <<>> THEN 1 ELSE s[Len(s)] * Prod(SubSeq(s, 1, Len(s) - 1))
 Max(a, b) == IF a >= b THEN a ELSE b
 Min(a, b) == IF a <= b THEN a ELSE b
 
-RECURSIVE IMaxTo(_, _)
-IMaxTo(f, n) == IF n = 1 THEN f[1] ELSE Max(IMaxTo(f, n - 1), f[n])
+RECURSIVE IMaxRange(_, _, _)
+IMaxRange(f, lo, hi) ==
+    IF lo = hi THEN f[lo]
+    ELSE LET mid == (lo + hi) \div 2 IN Max(IMaxRange(f, lo, mid), IMaxRange(f, mid + 1, hi))
+IMaxTo(f, n) == IMaxRange(f, 1, n)
 
 \* ----------------------------------------------------------- index algebra
 \* 0-based multi-indices, row-major (C order)
